@@ -168,6 +168,29 @@ def report(ctx, results):
                                     "full": "chk_full"}[name])))
 
 
+def driver_probe(ctx):
+  """precondition/oco/train.py: the compiled driver's checkpoints must equal the bound update function
+  applied row by row in order (several observation chunks; linear loss so that the gradient is the row).
+  Implementation-side only (added after a seeded change that indexed the rows by the chunk-local loop
+  counter was missed)."""
+  cases = []
+  for i, (algo, ell, num_obs) in enumerate([("OGD", 0, 2), ("OGD", 0, 4), ("ADA", 0, 3), ("ADA", 0, 5),
+                                           ("S_ADA", 3, 4), ("RFD_SON", 3, 3)]):
+    cases.append(dict(id=i, algo=algo, ell=ell, num_obs=num_obs, d=4, n=12, delta=0.5, lr=0.25,
+                      seed=ctx.rng.next()))
+  res = common.run_worker("harness.impl.c16_driver_worker", dict(cases=cases), x64=True, timeout=1800)["results"]
+  for c, r in zip(cases, res):
+    ctx.count("driver probes")
+    if "exc" in r:
+      ctx.violation("impl-violates", dict(input=c, expected="the training driver runs", actual=r["exc"],
+                                          trace=r.get("trace"), theorem_or_check="driver probe (c16_driver_worker)"))
+    elif not r["worst"] <= 1e-9 or r["n_hist"] != r["obs"]:
+      ctx.violation("impl-violates", dict(
+          input=c, expected="checkpoints of the compiled driver == update function applied to rows 0..n-1 in "
+          "order (1e-9 relative), row counter == observation index", actual=r,
+          theorem_or_check="driver probe (c16_driver_worker); closed forms c16_*"))
+
+
 def translator_obligations(ctx):
   """Regenerate the translation of _ogd_update_fn / _diag_adagrad_update_fn from /repo and re-prove it
   equal to C16.Ref (linked to the model steps by c16_*_update_is_model_step)."""
@@ -210,6 +233,7 @@ def run(ctx):
       "cases where it does not hold are counted and excluded from the lossless clause"]
   ctx.proofs(["Properties/C16.v"], extra_targets=["theories/C16/Check.vo"], dirs=["C09"])
   translator_obligations(ctx)
+  driver_probe(ctx)
   cases = gen_cases(ctx)
   ctx.log("%d cases" % len(cases))
   results = evaluate(ctx, run_impl(cases), "c16")
